@@ -352,6 +352,43 @@ def check_b(ck, repo):
             dep = node is not None and rd.depends_on(ast.Name(id=M, ctx=ast.Load()), node, set(), {"permutation_"})
         it_ok = ex.text(l.iter, ptr, l) == want(repo, f"range({y}.shape[1])", ptr, l)
         ck.verdict(src_ok and M is not None and dep and it_ok and f"{y}.copy()" in ydef, "C13.b", ptr, x, "probability columns are moved to their permuted position on a copy", "probability branch does not move column i to new_perm[i] (a mapping derived from permutation_) on a copy")
+        # what the branch hands back is the array the columns were moved into
+        cur_ = l
+        rets_ = []
+        while cur_ is not None and not rets_ and not isinstance(cur_, (ast.FunctionDef, ast.AsyncFunctionDef)):
+            par_ = getattr(cur_, "_parent", None)
+            for fld_ in ("body", "orelse", "finalbody"):
+                seq_ = getattr(par_, fld_, None)
+                if isinstance(seq_, list) and any(z is cur_ for z in seq_):
+                    k_ = [i_ for i_, z in enumerate(seq_) if z is cur_][0]
+                    for z in seq_[k_ + 1 :]:
+                        rets_ += [r_ for r_ in ast.walk(z) if isinstance(r_, ast.Return) and r_.value is not None]
+            cur_ = par_
+        if rets_:
+            rd_ = ex.rd(ptr)
+            bad_ = []
+            for r_ in rets_:
+                tv_ = r_.value.elts[-1] if isinstance(r_.value, ast.Tuple) and r_.value.elts else r_.value
+                nd_ = rd_.node_of(r_)
+                # a result variable assigned in the branch itself (single-exit form): its value there decides
+                local_def = None
+                if isinstance(tv_, ast.Name):
+                    par2 = getattr(l, "_parent", None)
+                    for fld_ in ("body", "orelse", "finalbody"):
+                        seq2 = getattr(par2, fld_, None)
+                        if isinstance(seq2, list) and any(z is l for z in seq2):
+                            k2 = [i_ for i_, z in enumerate(seq2) if z is l][0]
+                            for z in seq2[k2 + 1 :]:
+                                if isinstance(z, ast.Assign) and len(z.targets) == 1 and isinstance(z.targets[0], ast.Name) and z.targets[0].id == tv_.id:
+                                    local_def = z
+                if local_def is not None:
+                    nd2 = rd_.node_of(local_def)
+                    if nd2 is not None and not _flows_from(rd_, local_def.value, nd2, Y):
+                        bad_.append(local_def)
+                    continue
+                if nd_ is not None and not _flows_from(rd_, tv_, nd_, Y):
+                    bad_.append(r_)
+            ck.verdict(not bad_, "C13.b", ptr, rets_[0], f"the probability branch returns {Y}, the array the columns were moved into", f"after moving the columns into {Y} the branch hands back `{src_of(bad_[0].value) if bad_ else ''}`, which does not depend on {Y}: predict_proba / decision_function come back in the inner classifier's column order and disagree with classes_")
     # fit: distinct values in order of first appearance get 0..n-1, then permuted
     pfit = pc.methods["fit"]
     okr = False
@@ -405,6 +442,25 @@ def check_b(ck, repo):
 
 
 ORDER_WRAPPERS = ("numpy.sort(", "sorted(", "numpy.unique(", "numpy.array(sorted(", "numpy.asarray(sorted(")
+
+
+def _flows_from(rd, expr, at, name: str, _seen=None) -> bool:
+    """does the value of `expr` at `at` come (through local definitions) from the local `name`?"""
+    from engine.dataflow import _value_exprs
+
+    _seen = _seen if _seen is not None else set()
+    for n in ast.walk(expr):
+        if isinstance(n, ast.Name) and isinstance(n.ctx, ast.Load):
+            if n.id == name:
+                return True
+            for d in rd.reaching(n.id, at):
+                if d == -1 or (n.id, d) in _seen:
+                    continue
+                _seen.add((n.id, d))
+                dn = rd.node_by_id[d]
+                if any(_flows_from(rd, e, dn, name, _seen) for e in _value_exprs(dn, n.id)):
+                    return True
+    return False
 
 
 def _strip_order(t: str) -> str:
@@ -529,6 +585,7 @@ def run(ck):
 _F = "mlinsights/mlmodel/sklearn_transform_inv_fct.py"
 _T = "mlinsights/mlmodel/target_predictors.py"
 WITNESSES = [
+    {"name": "probability-branch-returns-input", "file": _F, "rule": "C13.b", "old": "                yp[:, new_perm[i]] = y[:, i]\n            return X, yp\n", "new": "                yp[:, new_perm[i]] = y[:, i]\n            return X, y\n"},
     {"name": "table-wrong-inverse-name", "file": _F, "rule": "C13.a", "old": '"exp(x)-1": (lambda x: numpy.exp(x) - 1, "log(1+x)")', "new": '"exp(x)-1": (lambda x: numpy.exp(x) - 1, "log")'},
     {"name": "table-function-not-its-name", "file": _F, "rule": "C13.a", "old": '"log(1+x)": (lambda x: numpy.log(x + 1), "exp(x)-1")', "new": '"log(1+x)": (lambda x: numpy.log(x) + 1, "exp(x)-1")'},
     {"name": "table-log1p-is-log", "file": _F, "rule": "C13.a", "old": '"log1p": (numpy.log1p, "expm1")', "new": '"log1p": (numpy.log, "expm1")'},
